@@ -286,6 +286,24 @@ class Impl:
                 if ret is not None:
                     return ("ok-badreturn", repr(ret), None)
                 data = b.getvalue()
+            elif kind == "namedtemp":
+                # tempfile.NamedTemporaryFile(): a _TemporaryFileWrapper (has write(), is not an io.IOBase instance)
+                import tempfile
+                path = self.fresh(name)
+                with tempfile.NamedTemporaryFile(dir=str(path.parent), delete=False) as f:
+                    ret = j.dump(obj, f, compress=compress, protocol=protocol)
+                    tmpname = f.name
+                os.replace(tmpname, path)
+                if ret is not None:
+                    return ("ok-badreturn", repr(ret), path)
+                data = path.read_bytes()
+            elif kind == "duckwriter":
+                # the least a file-object target has: write()
+                sink = _DuckWriter()
+                ret = j.dump(obj, sink, compress=compress, protocol=protocol)
+                if ret is not None:
+                    return ("ok-badreturn", repr(ret), None)
+                data = bytes(sink.data)
             elif kind in OPENED_TARGETS:
                 # a file object opened BY THE CALLER: joblib's own compressor files, CPython's, raw / tiny-buffer files
                 path = self.fresh(name)
@@ -325,6 +343,30 @@ class Impl:
         with open(p, "rb") as f:
             out.append(("file", j.load(f)))
         out.append(("bytesio", j.load(io.BytesIO(data))))
+        # a member of a zip archive: zipfile.ZipExtFile (binary, peekable, seekable, .mode == 'r')
+        import threading
+        import zipfile
+        zp = self.fresh("arch.zip")
+        with zipfile.ZipFile(zp, "w") as z:
+            z.writestr("member.pkl", data)
+        with zipfile.ZipFile(zp) as z, z.open("member.pkl") as f:
+            out.append(("zip-member", j.load(f)))
+        # a pipe: BufferedReader over a non-seekable descriptor (tell() raises OSError(ESPIPE)); the writer delivers
+        # the bytes from another thread
+        if len(data) <= (1 << 20):
+            r, w = os.pipe()
+
+            def feed():
+                with os.fdopen(w, "wb") as fw:
+                    fw.write(data)
+
+            t = threading.Thread(target=feed)
+            t.start()
+            try:
+                with os.fdopen(r, "rb") as f:
+                    out.append(("pipe", j.load(f)))
+            finally:
+                t.join()
         if reopen_kind in ("jzlib", "jgzip", "gzipfile", "bz2file", "lzmafile"):
             # through the caller's own (de)compressing file object, opened for reading
             from joblib.compressor import BinaryGzipFile, BinaryZlibFile
@@ -342,6 +384,17 @@ class Impl:
 
 
 OPENED_TARGETS = ("jzlib", "jgzip", "gzipfile", "bz2file", "lzmafile", "rawfile", "tinybuf", "rawio-mv")
+
+
+class _DuckWriter:
+    """A file-object target that only has write() (no io.IOBase, no name, no mode)."""
+
+    def __init__(self):
+        self.data = bytearray()
+
+    def write(self, b):
+        self.data += bytes(b)
+        return len(b)
 
 
 class _RecordingRaw(io.RawIOBase):
@@ -691,7 +744,7 @@ def roundtrip_plan(ctx, tables, salt, scale):
     avail = [c["name"] for c in tables["compressors"] if c["available"]]
     exts = [c["ext"] for c in tables["compressors"] if c["available"]] + [".pkl", "", ".joblib"]
     cfgs = [0, False, True, 1, 3, 6, 9] + avail + [(n, l) for n in avail for l in (1, 3, 9)] + [(avail[0], 0)]
-    tkinds = ["str", "pathlib", "file", "bytesio"]
+    tkinds = ["str", "pathlib", "file", "bytesio", "namedtemp", "duckwriter"]
     protos = [0, 1, 2, 3, 4, 5, None, -1]
     plan = []
 
